@@ -30,6 +30,7 @@ type Options struct {
 	Quick, Thorough int                               // number of programs
 	Known           func(it xsugar.Item) string       // class of a known finding this item belongs to ("" = none): item is not generated
 	Documented      func(it xsugar.Item) bool         // true if the docs show exactly this shape: cl rejecting it is a violation
+	Oracle          func(Case) *vk.Verdict            // the oracle registered with NewOracle at package init
 }
 
 var headerRe = regexp.MustCompile(`(?m)^item (\d+) (\S+)$`)
@@ -81,27 +82,54 @@ func blame(o diffrun.Out) *vk.Verdict {
 	return v
 }
 
-// Eval is the replay oracle.
-func Eval(c Case) *vk.Verdict {
-	outs, err := diffrun.Eval([]diffrun.Pair{{Ref: c.Go, XFiles: map[string]string{"bar.xgo": c.XGo}}})
-	if err != nil {
-		return vk.Bad("infra", "%v", err)
+// Refine maps a compile-time rejection to a more specific verdict class from the offending source
+// line and the error text ("" = keep the default class).
+type Refine func(srcLine, errText string) string
+
+func srcLine(src string, n int) string {
+	lines := strings.Split(src, "\n")
+	if n >= 1 && n <= len(lines) {
+		return lines[n-1]
 	}
-	return blame(outs[0])
+	return ""
+}
+
+func refineReject(o diffrun.Out, xgo string, refine Refine) *vk.Verdict {
+	v := o.V
+	if v == nil || (v.Class != "cl-rejects" && v.Class != "xgo-parser-rejects" && v.Class != "cl-panics") || o.ClErr == nil {
+		return v
+	}
+	if refine != nil {
+		if cls := refine(srcLine(xgo, o.ClErrPos), o.ClErr.Error()); cls != "" {
+			return &vk.Verdict{Class: cls, Detail: v.Detail}
+		}
+	}
+	// default: one class per item kind
+	if idx := itemAtLine(xgo, o.ClErrPos); idx >= 0 {
+		if m := regexp.MustCompile(fmt.Sprintf(`"item %d (\S+)"`, idx)).FindStringSubmatch(xgo); m != nil {
+			return &vk.Verdict{Class: v.Class + ":" + m[1], Detail: v.Detail}
+		}
+	}
+	return v
+}
+
+// NewOracle registers the replay oracle of a sugar check (call it from a package-level var).
+func NewOracle(name string, refine Refine) func(Case) *vk.Verdict {
+	return vk.Register(name, func(c Case) *vk.Verdict {
+		outs, err := diffrun.Eval([]diffrun.Pair{{Ref: c.Go, XFiles: map[string]string{"bar.xgo": c.XGo}}})
+		if err != nil {
+			return vk.Bad("infra", "%v", err)
+		}
+		return blame(diffrun.Out{V: refineReject(outs[0], c.XGo, refine), Ref: outs[0].Ref, X: outs[0].X})
+	})
 }
 
 // itemAtLine maps a line of the rendered XGo file to an item index (-1 = not inside an item).
 func itemAtLine(src string, line int) int {
-	lines := strings.Split(src, "\n")
 	cur := -1
-	for i, l := range lines {
-		if strings.HasPrefix(l, "func item") {
-			fmt.Sscanf(l, "func item%d()", &cur)
-		} else if l == "}" {
-			if i+1 >= line && cur >= 0 {
-				return cur
-			}
-			cur = -1
+	for i, l := range strings.Split(src, "\n") {
+		if strings.HasPrefix(l, "// @item ") {
+			fmt.Sscanf(l, "// @item %d", &cur)
 		} else if strings.HasPrefix(l, "func main()") {
 			cur = -1
 		}
@@ -131,7 +159,7 @@ func rejectClass(kind string, err error) string {
 
 // Run executes the generated tier.
 func Run(t *testing.T, r *vk.Rec, opt Options) {
-	oracle := vk.Register(opt.Name, Eval)
+	oracle := opt.Oracle
 	n := r.N(opt.Quick, opt.Thorough)
 	gen := rapid.Custom(func(t *rapid.T) *xsugar.Program {
 		return opt.Program(&xsugar.G{T: t})
@@ -179,7 +207,6 @@ func Run(t *testing.T, r *vk.Rec, opt Options) {
 					if vv == nil {
 						vv, c = v, Case{XGo: src, Go: p.Go()}
 					}
-					vv = &vk.Verdict{Class: vv.Class + ":" + it.Kind, Detail: vv.Detail}
 					if r.Judge(vv) != nil {
 						r.Fail(opt.Name, c, vv)
 						t.Errorf("%s", vv)
